@@ -133,6 +133,7 @@ def h_timer(cfg):
                 call('restart', tau)
         finally:
             ref.in_cb = False
+        return cfg.get('cb_returns')     # whatever the callback returns is its own business (a predicate may return False)
 
     def controller():
         yield env.timeout(num('t0', lo_strict=False))
@@ -216,6 +217,10 @@ def jobs(tier, seed):
                 if auto:
                     cfg['max_fire'] = 3 if tier == 'quick' else 4
                 js.append({'harness': 'timer', 'cfg': cfg, 'weight': 20 if auto else 5, 'opts': opts})
+    # callbacks that return something
+    for val in (False, 0, True):
+        js.append({'harness': 'timer', 'weight': 20,
+                   'cfg': {'auto': True, 'ctrl': ['stop'], 'cb': {}, 'argmode': 'scalar', 'sorts': 'int', 'max_fire': 3, 'cb_returns': val}})
     # scalar arguments that are sequences themselves (strings, bytes)
     for argmode in ('str', 'empty-str', 'bytes'):
         js.append({'harness': 'timer', 'weight': 5,
